@@ -1760,9 +1760,20 @@ fn sub_c16_builder(input: &[u8], st: &mut Stats) -> R {
         .collect();
     // history of the Builder before the call: 0 = fresh; 1 = a terminator and a block
     // instruction were REJECTED first (no block open); 2 = an earlier complete function exists
+    // 3 = the version was pinned to 1.6 first; 4-7 = the same-typed arguments of the call all name
+    // ONE id (both targets of a conditional branch, every member of an id list) and number lists are
+    // empty (4: version 1.6, 5: no version, 6: version 1.0, 7: version 1.6, lists kept)
     let total = ms.len() * 6;
     let hist = i / total;
     let i = i % total;
+    let (hist, pinned, aliased, empty_lists) = match hist {
+        0..=2 => (hist, None, false, false),
+        3 => (0, Some((1u8, 6u8)), false, false),
+        4 => (0, Some((1, 6)), true, true),
+        5 => (0, None, true, true),
+        6 => (2, Some((1, 0)), true, true),
+        _ => (0, Some((1, 6)), true, false),
+    };
     let variant = i % 6;
     let Some(mm) = ms.get(i / 6).copied() else { return Ok(()) };
     let has_ip = mm.mi.params.first().map(|p| p.1) == Some("InsertPoint");
@@ -1772,6 +1783,9 @@ fn sub_c16_builder(input: &[u8], st: &mut Stats) -> R {
     let stream = crate::sweep::stream_for(i as u64 ^ 0xc16, 256);
     let mut cs = Cs::new(&stream);
     let mut b = Builder::new();
+    if let Some((ma, mi)) = pinned {
+        b.set_version(ma, mi);
+    }
     let ids: Vec<u32> = (0..6).map(|_| b.id()).collect();
     match hist {
         1 => {
@@ -1829,6 +1843,20 @@ fn sub_c16_builder(input: &[u8], st: &mut Stats) -> R {
             }
         }
     }
+    if aliased {
+        let one = env.ids[2];
+        for a in planned.args.iter_mut() {
+            match a {
+                ArgVal::Word(x) => *x = one,
+                ArgVal::Words(v) => v.iter_mut().for_each(|x| *x = one),
+                ArgVal::PairsWW(v) => v.iter_mut().for_each(|x| *x = (one, one)),
+                ArgVal::U32s(v) if empty_lists => v.clear(),
+                ArgVal::PairsWU(v) if empty_lists => v.clear(),
+                _ => {}
+            }
+        }
+        st.count("calls_with_aliased_arguments");
+    }
     let mut a = Args::new(planned.args.clone());
     let out = no_panic(&format!("Builder::{}", mm.mi.name), || callf(&mut b, &mut a))?;
     let opname = mm.gi.unwrap().opname.as_str();
@@ -1851,7 +1879,7 @@ fn sub_c16_builder(input: &[u8], st: &mut Stats) -> R {
             ),
         ));
     }
-    st.nontrivial(hash_str(&format!("{}#{}#{}", mm.mi.name, variant, hist)));
+    st.nontrivial(hash_str(&format!("{}#{}#{}#{:?}#{}#{}", mm.mi.name, variant, hist, pinned, aliased, empty_lists)));
     if closed {
         st.set_insert("block_ending_methods", mm.mi.name);
     }
@@ -1865,7 +1893,7 @@ pub fn c16_run(ctx: &Ctx) {
         .iter()
         .filter(|m| matches!(m.kind, MKind::BlockInst | MKind::BlockInsert | MKind::Terminator | MKind::TerminatorInsert))
         .count();
-    drive_enum(ctx, &C16_SUBS[0], n as u64 * 6 * 3);
+    drive_enum(ctx, &C16_SUBS[0], n as u64 * 6 * 8);
 }
 
 #[allow(dead_code)]
